@@ -17,6 +17,8 @@ import traceback
 
 sys.path.insert(0, os.path.dirname(os.path.dirname(os.path.abspath(__file__))))
 sys.dont_write_bytecode = True
+import warnings  # noqa: E402
+warnings.filterwarnings("ignore")
 
 if os.environ.get("VERIF_REPO"):          # run against a scratch worktree instead of /repo
     sys.path.insert(0, os.environ["VERIF_REPO"])
